@@ -4,10 +4,11 @@
 (* of nodes (parent before child).  Poses are exact rationals (decimal-exact, so the "%f"   *)
 (* re-serialisation of the code loses nothing).  This specification models the INTENDED     *)
 (* rule: the offset is applied whenever the fused body's pose is not the identity.          *)
-EXTENDS RatAlg, TLC, Randomization
+EXTENDS RatAlg, TLC, Prng, FiniteSets
 
 CONSTANTS ShapeIds,    \* which tree shapes (see Shapes) this run explores
-          NPose        \* random pose assignments per (shape, weld-pose-kind pattern)
+          NPose,       \* pose assignments per (shape, weld-pose-kind pattern)
+          SeedBase
 
 VARIABLES nodes,    \* sequence of [kind, parent, pos, quat, ft, alive]; parent 0 = worldbody
           wp0,      \* world pose of every node in the ORIGINAL tree (what must be preserved)
@@ -95,7 +96,9 @@ Init ==
        LET shape == Shapes[sid]
            n == Len(shape)
            welds == {i \in 1..n : shape[i][1] = "W"}
-       IN  \E pk \in [welds -> PoseKinds], gen \in RandomSubset(NPose, Genome(n)) :
+       IN  \E pk \in [welds -> PoseKinds], k \in 1..NPose :
+             LET gen == GenV(SeedBase + 31 * k + n + 7 * Cardinality({w \in welds : pk[w] \in {"pos", "both"}})
+                             + 211 * Cardinality({w \in welds : pk[w] \in {"quat", "both"}}), 7 * n, 11) IN
              nodes = [i \in 1..n |-> MkNode(shape, i, gen, [i2 \in 1..n |-> IF i2 \in welds THEN pk[i2] ELSE "both"])]
   /\ src = nodes
   /\ wp0 = <<>>            \* computed by Snapshot (keeps the single-threaded Init cheap)
